@@ -74,7 +74,10 @@ impl<C: CompressionStrategyConfig> CmdCompressor<C> {
             | DataCmdType::Mget
             | DataCmdType::Setbit
             | DataCmdType::Setrange
-            | DataCmdType::Strlen => match strategy {
+            | DataCmdType::Strlen
+            | DataCmdType::Substr
+            | DataCmdType::Getdel
+            | DataCmdType::Getex => match strategy {
                 CompressionStrategy::SetGetOnly => return Err(CompressionError::RestrictedCmd),
                 _ => return Err(CompressionError::UnsupportedCmdType),
             },
